@@ -906,6 +906,10 @@ func (x *Exec) RunScenario(sc *Scenario) {
 	x.viaSlice = false
 	for i := range sc.Steps {
 		x.step = i + 1
+		if sc.Steps[i].Op == "FloatJSONBatch" {
+			x.floatJSONBatch(sc, &sc.Steps[i])
+			continue
+		}
 		x.runStep(sc, &sc.Steps[i])
 	}
 }
@@ -1159,6 +1163,8 @@ func (x *Exec) dispatch(st *Step, ev Ev) {
 		ev["res"] = b2i(eq)
 	case "Rebuild":
 		x.rebuild(st, ev)
+	case "FloatFmt", "FloatJSON":
+		x.floatOps(st, ev)
 	case "ToCSV", "ToJSON", "String", "ReadCSV", "ReadJSON", "ToSQL", "ReadSQL", "CsvScan", "Scribble", "View":
 		x.dispatchIO(st, ev)
 	case "SliceObs":
